@@ -389,7 +389,7 @@ func (g *bgen) schema(doc string, depth int, allowRef bool) O {
 			}
 		}
 		return s
-	case k < 94 || !g.cfg.Exotic: // allOf
+	case k < 92 || !g.cfg.Exotic: // allOf
 		n := g.Int(1, 3)
 		var its A
 		for i := 0; i < n; i++ {
@@ -411,7 +411,14 @@ func (g *bgen) schema(doc string, depth int, allowRef bool) O {
 	default:
 		g.Label("exotic-holder")
 		s := O{}
-		switch g.Int(0, 4) {
+		switch g.Int(0, 5) {
+		case 5:
+			// two pattern properties with different complex schemas
+			s["type"] = "object"
+			s["patternProperties"] = O{
+				"^n-": O{"type": "object", "properties": O{"n": g.schema(doc, depth+1, allowRef)}},
+				"^s-": O{"type": "object", "properties": O{"s": g.prim(), "t": O{"type": "string"}}},
+			}
 		case 0:
 			s["anyOf"] = A{g.schema(doc, depth+1, allowRef), g.schema(doc, depth+1, allowRef)}
 		case 1:
@@ -658,6 +665,23 @@ func GenFlattenCase(d *D, cfg BundleCfg) *FlattenCase {
 			pi["parameters"] = A{pathParam}
 		}
 		paths[p] = pi
+	}
+	if g.Pct(6) {
+		// three operations without id whose method + path give the same generated name
+		g.Label("three-ops-same-generated-name")
+		m := g.Pick([]string{"post", "get", "delete"})
+		for _, p := range []string{"/a-b", "/a_b", "/a/b"} {
+			pi := Obj(paths[p])
+			if pi == nil {
+				pi = O{}
+				paths[p] = pi
+			}
+			r := O{"description": "r"}
+			if g.Pct(60) {
+				r["schema"] = g.schema("", 1, true)
+			}
+			pi[m] = O{"responses": O{"200": r}}
+		}
 	}
 	if as := g.auxWith("pathItems"); len(as) > 0 && g.Pct(50) {
 		g.Label("ref:remote-pathitem")
